@@ -1622,3 +1622,7 @@ Proof.
   assert (l' = LCfg) by (apply F2; right; exact D). subst l'.
   split; [exact Hl|]. exact (life_reaches_cfg evs LOff Hl).
 Qed.
+
+Lemma bound_within_monitor : forall max_retry, 0 <= max_retry ->
+  c07_cycles max_retry = (Z.to_nat max_retry + 11)%nat /\ (c07_cycles max_retry <= c07_bound max_retry)%nat.
+Proof. intros m H. split; [reflexivity|exact (cycles_le_bound m H)]. Qed.
